@@ -20,6 +20,7 @@ package types
 import (
 	"encoding/json"
 	"fmt"
+	"math"
 	"reflect"
 	"time"
 )
@@ -258,15 +259,18 @@ func (c *ColumnImage) UnmarshalJSON(data []byte) error {
 			if !ok {
 				return fmt.Errorf("column %s: a number is expected for type %d, got %T", columnName, columnType, value)
 			}
-			switch JDBCType(columnType) {
-			case JDBCTypeTinyInt: // 1 Bytes
-				actualValue = int8(f)
-			case JDBCTypeSmallInt: // 2 Bytes
-				actualValue = int16(f)
-			case JDBCTypeInteger: // 4 Bytes
-				actualValue = int32(f)
+			// the width of the column type - unless the value does not fit it (the type code does
+			// not tell UNSIGNED columns apart): then all 64 bits, as the row scanner delivered it
+			n := int64(f)
+			switch {
+			case JDBCType(columnType) == JDBCTypeTinyInt && n >= math.MinInt8 && n <= math.MaxInt8: // 1 Bytes
+				actualValue = int8(n)
+			case JDBCType(columnType) == JDBCTypeSmallInt && n >= math.MinInt16 && n <= math.MaxInt16: // 2 Bytes
+				actualValue = int16(n)
+			case JDBCType(columnType) == JDBCTypeInteger && n >= math.MinInt32 && n <= math.MaxInt32: // 4 Bytes
+				actualValue = int32(n)
 			default: // 8Bytes
-				actualValue = int64(f)
+				actualValue = n
 			}
 		case JDBCTypeTimestamp, JDBCTypeDate, JDBCTypeTime:
 			str, ok := value.(string)
